@@ -11,7 +11,7 @@ CLAIMED = {
         category="exploration",
         technique="exhaustive opcode x boundary-operand round trips + rapidcheck random operands/bytes (in-process, ASan/UBSan); Hypothesis-generated programs for the disassemble->assemble round trip",
         text="Round-trip oracle decode(encode(i))==i / encode(decode(b))==b over every opcode byte with the full cross product of 29 boundary bit patterns per operand slot (exhaustive for that grid), every truncation length, exact-fit heap buffers under ASan, plus random operands and random byte strings; assemble(disassemble(m)) compared on code bytes, function table and string pool for compiler-produced modules from generated programs (hostile string alphabets, label-capacity family) and from the repository's tests/examples. Exploration: random parts sample the space; only the grid is complete.",
-        note="Trusts clang ASan/UBSan to expose out-of-bounds accesses; 'defined opcode' is taken from the implementation's own table (isa_get_info), so a consistent re-numbering is not a violation; the textual form has no directive for imports/debug/flags, which the property does not claim.",
+        note="Trusts clang ASan/UBSan to expose out-of-bounds accesses; 'defined opcode' is taken from the implementation's own table (isa_get_info), so a consistent re-numbering is not a violation; the textual form has no directive for imports/debug/flags, which the property does not claim. The label-capacity family has variants with while / for loops after every 100 conditionals (numeric backward offsets beyond the disassembler's label table).",
         design="3/C11"),
     "C12": dict(
         category="fault_enumeration",
@@ -35,7 +35,7 @@ CLAIMED = {
         category="exploration",
         technique="Hypothesis-generated programs plus AST-level mutants filtered by the type checker itself; validity-predicate oracle over compile and run endings on both backends",
         text="Domain = programs the front end accepts silently: progen programs and 1-3-point mutants of them (operator swapped, operand replaced by a variable/literal of any type, arguments swapped, declared type changed, strings under ordering) that survive nano_virt's type checker without a diagnostic. Oracle: nanoc + cc succeed, bytecode generation and verification succeed, and both runs end normally or in a documented fault; any 'C compilation failed', 'codegen failed', VM type/decode/stack error, or fatal signal is a violation. Open ledger entries exclude their trigger shape from generation and mutation (counted).",
-        note="'Accepted' is observed through nano_virt (no front-end failure, no diagnostic banner). Refusals by nanoc's compile-time shadow evaluation are left to C03/C06. Mutants keep loop headers and recursion guards intact so that they terminate.",
+        note="'Accepted' is observed through nano_virt (no front-end failure, no diagnostic banner). Refusals by nanoc's compile-time shadow evaluation are left to C03/C06. Mutants keep loop headers and recursion guards intact so that they terminate. Also enumerated: the placement matrix - six declaration-bearing statements (function-typed, tuple, struct, union and array lets) as the only occurrence of their type inside each of ten statement containers, in main and in a helper function.",
         design="3/C04"),
     "C07": dict(
         category="exploration",
@@ -47,31 +47,31 @@ CLAIMED = {
         category="exploration",
         technique="rapidcheck round-trip property over API-built modules (in-process, ASan/UBSan) + differential oracle over three runners (nano_virt --run, nano_vm file, native wrapper) on Hypothesis-generated programs; serialize(load(file)) == file on every compiler-produced module",
         text="(a) deserialize(serialize(m)) == m field by field (strings with lengths incl. empty/duplicate/high bytes/long, function table with arbitrary field values, code up to 70 KiB, imports with parameter tables, debug entries, flags, entry point), serialize idempotent, stored CRC consistent - on modules built through the public nvm_* API by rapidcheck. (b) stdout bytes and exit status of the three ways to run a compiled program are equal, over exit statuses 0..255, runs ending in a failed assert, programs with globals (__init__) and extern calls; every produced .nvm is a fixed point of load/serialize.",
-        note="The wrapper is built through nano_virt -o (links the prebuilt objects of build/plain). Sampling, not enumeration.",
+        note="The wrapper is built through nano_virt -o (links the prebuilt objects of build/plain). Sampling, not enumeration. Programs may start with getenv / getcwd calls (string arguments travel through the import table of the stored module); the harness sets the variables.",
         design="3/C10"),
     "C08": dict(
         category="exploration",
         technique="Hypothesis-generated bounds cases (array length x boundary index x element kind x operation x index delivery x placement) with an exact oracle (exit != 0 and nothing after the access / model value for in-range controls) on native, NanoVM (plain and ASan/UBSan builds), nano_vm and the compile-time evaluator",
         text="Indices are drawn from a boundary set around n, 2^31, 2^32 (incl. 2^32+k that a 32-bit cast would wrap into range) and +-2^63, reach the access only at run time (function result, loop, global, arithmetic), and the access sits at statement level, inside an operand, in a callee or on the k-th loop iteration; reads and writes of int/bool/string/float arrays; in-range controls keep the oracle from passing vacuously. Field cases (tuple index past arity, undeclared field, field of another union variant) must be refused at compile time or stop at run time.",
-        note="array_pop on an empty array and the wrong-variant field are recorded findings (ledger). Out-of-range behaviour of array_slice/array_remove_at is not in the statement and not asserted.",
+        note="array_pop on an empty array and the wrong-variant field are recorded findings (ledger). Out-of-range behaviour of array_slice/array_remove_at is not in the statement and not asserted. A fifth placement puts the access into the initialiser of a top-level let (it runs before main, or at compile time for nanoc).",
         design="3/C08"),
     "C09": dict(
         category="exploration",
         technique="coverage-guided fuzzing (libFuzzer in-process front-end target under ASan/UBSan, dictionary, empty and repository corpus) + Hypothesis token-level mutation of valid programs + nesting ramps, all judged by one subprocess oracle on the ASan build of nano_virt",
         text="Oracle: nano_virt --emit-nvm (ASan+UBSan build) exits 0 or 1, exit 1 carries a diagnostic, no signal, no sanitizer report, bounded time (suspected hangs re-run 3x with 10x budget), nesting beyond the documented limit of 1000 is rejected for every construct that nests by recursion. Inputs: fuzzer-generated byte strings (crash/timeout artifacts re-validated through the oracle), 1-4 token-level edits of generated valid programs (delete/duplicate/swap/replace/truncate/splice/unbalance/keyword injection/raw bytes), and ramps of 15 recursive constructs to depth 30 000 (100 000 in thorough). A stack overflow seen only under instrumentation is re-checked on the build as shipped.",
-        note="Leaks are outside the property. libFuzzer campaigns are only approximately reproducible from VERIF_SEED; saved artifacts are the reproducible unit. Import processing is exercised with unresolvable paths only (no module files are generated).",
+        note="Leaks are outside the property. libFuzzer campaigns are only approximately reproducible from VERIF_SEED; saved artifacts are the reproducible unit. Import processing is exercised with unresolvable paths only (no module files are generated). The mutation family also starts from seven hand-written valid programs over generics, contracts, function values, collections, FFI and enums/unions, with type-word and identifier swaps; 192 import graphs over real module files (cycles, self imports, missing and broken modules) are enumerated.",
         design="3/C09"),
     "C13": dict(
         category="exploration",
         technique="coverage-guided fuzzing (libFuzzer + ASan/UBSan) of an in-process loader->verifier->VM target with checksum fix-up and a structure-aware module builder; oracle inside the target (return / error code / verifier-VM agreement) under an instruction budget",
         text="Inputs: raw .nvm images mutated from compiler-produced seeds with the CRC recomputed, and modules assembled from FuzzedDataProvider bytes through the public nvm_* API (weighted 90-opcode alphabet, boundary operands incl. 2^31/2^32/INT64 extremes, arbitrary function-table fields) then patched at arbitrary u32 offsets and re-checksummed. Every accepted import-free module is executed with 20 000 instructions of fuel (hook H1). Violations: any sanitizer report or signal in loader, verifier or VM, or a decode/invalid-opcode error at an instruction boundary the verifier walked. Evidence counts how many inputs were loaded / verified / executed.",
-        note="Only crash- artifacts count; oom-/slow-/timeout- artifacts are load noise (memory exhaustion by huge allocations is not in the statement). Campaigns are approximately reproducible from VERIF_SEED; artifacts are the reproducible unit. The daemon path (no verifier call) belongs to C18.",
+        note="Only crash- artifacts count; oom-/slow-/timeout- artifacts are load noise (memory exhaustion by huge allocations is not in the statement). Campaigns are approximately reproducible from VERIF_SEED; artifacts are the reproducible unit. The daemon path (no verifier call) belongs to C18. The structure-aware builder draws table sizes from growth steps and emits self-containing container idioms (array holding itself directly or through union / tuple / struct / closure, then print / string conversion / comparison); a timeout artifact that does not finish alone within 100 s, twice, is a violation.",
         design="3/C13"),
     "C05": dict(
         category="exploration",
         technique="catalogue of rule-violating snippets (ill-formed by construction) inserted at generated positions into Hypothesis-generated well-typed programs; oracle over four tool invocations: non-zero exit, diagnostic, no artifact, sentinel never printed",
         text="Operator typing matrix from specification 4.4-4.6 (14 binary operators x 16 ordered operand-type pairs x prefix/infix x variable/literal operands: 1 328 ill-typed entries, enumerated completely at two placements each and sampled with random base programs) plus 49 hand-written snippet variants over 14 rule classes (operand/argument type, arity of user functions and builtins, unknown and out-of-scope names, use before declaration, assignment to immutable variable/parameter, missing return, return type, non-bool condition, let/set type, unknown field/variant, consumed resource, extern outside unsafe) x 6 placements (top/end of main, nested block, loop body, other function, shadow body), exhaustively on a minimal base program and sampled on generated base programs; nanoc -o, nano_virt --run, --emit-nvm, -o are all required to refuse without leaving an artifact or executing the sentinel-printing main/shadow blocks.",
-        note="Variants/placements that are recorded findings are excluded by construction and counted (ledger c05_variants / c05_placements). nanoc does not echo shadow-block output without --verbose, so 'executed nothing' is observable for nanoc only through the artifact and exit status.",
+        note="Variants/placements that are recorded findings are excluded by construction and counted (ledger c05_variants / c05_placements). nanoc does not echo shadow-block output without --verbose, so 'executed nothing' is observable for nanoc only through the artifact and exit status. Rule class fn_signature (function values whose last / first / only parameter, result or arity differs from the declared function type, as argument and in a let) and five variants of a bare extern call statement after an unsafe block were added after seeded changes slipped through.",
         design="3/C05"),
     "C06": dict(
         category="exploration",
@@ -101,7 +101,7 @@ CLAIMED = {
         category="exploration",
         technique="invariant over the run: guarded live-object registry + heap audit at every instruction boundary (hook H2) on Hypothesis-generated aliasing-heavy programs, plus a churn family with a growth bound; plain and ASan builds of the VM",
         text="The audit walks the operand stack (locals) and globals and every container reachable from them, counts references per object and reports a reference to a non-live object or ref_count < references found; frees of unregistered objects are reported at once. Programs come from progen with aliasing on (values bound to several names, stored in arrays/structs/tuples/unions, passed through and returned from calls, overwritten while aliased, early exits from loops); every fourth program also runs under ASan. Twelve loop bodies that allocate per iteration are run with k = 10, 100, 1000 and the live-object count must not grow by more than 8.",
-        note="References held only in C locals of the interpreter between two instructions are invisible to the audit (they can only make ref_count larger than the audited in-degree). The registry is process-global and only active with NANOLANG_VERIF_AUDIT set.",
+        note="References held only in C locals of the interpreter between two instructions are invisible to the audit (they can only make ref_count larger than the audited in-degree). The registry is process-global and only active with NANOLANG_VERIF_AUDIT set. Generated programs include slices, HashMap inserts / overwrites / removals, fields of call results and string-lifetime idioms.",
         design="3/C14"),
     "C15": dict(
         category="exploration",
@@ -119,13 +119,13 @@ CLAIMED = {
         category="exploration",
         technique="differential oracle per client (nano_vm --daemon vs standalone nano_vm) on Hypothesis-generated batches of concurrent clients with drawn arrival offsets, against a private daemon (hook H3) in the plain and the ThreadSanitizer build",
         text="Batches of up to 24 (quick) / 64 (thorough) real client processes over 1-5 distinct modules - outputs from 0 bytes to several hundred KiB with a per-module marker on every line, globals, heap-heavy loops, failed asserts, out-of-range accesses, non-zero exit statuses, external calls routed through co-processes - are submitted with 0-20 ms arrival offsets. Each client's stdout bytes, exit status and error text must equal the standalone run of its module, no foreign marker may appear, the daemon must survive, and every fourth batch runs against a TSan-instrumented daemon whose log must be free of data-race reports.",
-        note="The schedule space is sampled, not enumerated: only arrival offsets are controlled (yield-injection hook H4 was not built). A failure must reproduce in 2 of 3 re-runs.",
+        note="The schedule space is sampled, not enumerated: only arrival offsets are controlled (yield-injection hook H4 was not built). A failure must reproduce in 2 of 3 re-runs. Modules may print tuples, arrays and structs and may end or fault with an unterminated line pending; only the part of the daemon log a batch produced is judged.",
         design="3/C17"),
     "C18": dict(
         category="exploration",
         technique="stateful generation: Hypothesis-generated sequences of client behaviours played by a raw-socket client against a private ASan daemon (hook H3); invariant after every step (daemon alive, PING answered within 2 s, clean sanitizer log) and a differential oracle (stand-alone nano_vm) for every well-formed session",
         text="Sequences of 2-30 behaviours from: well-formed exec (short and ~1.5 MiB output), ping, status, header only, payload truncated at 0/1/7/8/half/len-1 bytes, garbage, wrong version, unknown type, length beyond VMD_MAX_PAYLOAD, zero-length exec, a non-module payload, eleven hostile modules (well-checksummed images whose entry function is overwritten with stack underflow, out-of-range local / call / string / global / jump, invalid opcode, truncated operand; function table and entry index out of range; bad checksum), disconnect before / during / after output, and stalled clients (up to 8 kept open across later steps). After every step the daemon must be alive and answer PING; every well-formed session must get the stand-alone result byte for byte; a hostile module that the stand-alone VM refuses must not get a success reply and its session must end; the daemon log must be free of sanitizer reports.",
-        note="Interleavings are the scheduler's; only the order of the steps and which sessions stay open are generated. 'The offending session ends with an error reply or a closed connection' is read as: no success reply (EXIT_CODE 0 without ERROR) for a module that nano_vm refuses. Endless-loop modules are not submitted (the daemon has no execution budget; the property does not promise one).",
+        note="Interleavings are the scheduler's; only the order of the steps and which sessions stay open are generated. 'The offending session ends with an error reply or a closed connection' is read as: no success reply (EXIT_CODE 0 without ERROR) for a module that nano_vm refuses. Endless-loop modules are not submitted (the daemon has no execution budget; the property does not promise one). STATUS replies are checked against the number of sessions the client holds open; one hostile module loads an upvalue outside a closure; only the part of the daemon log a case produced is judged.",
         design="3/C18"),
 }
 
